@@ -40,7 +40,8 @@ Inductive reason : Type :=
 | R_setup_hard_no_rect
 | R_edges_format | R_edge_spec
 | R_cr_no_center | R_square_center | R_hard_overlap | R_stog_empty | R_flip_no_stog
-| R_unknown_module | R_weight.
+| R_unknown_module | R_weight
+| R_source.        (* read_yaml: the argument is no tree, no str and no text stream *)
 
 Inductive result (A : Type) : Type :=
 | Ok (a : A)
